@@ -24,10 +24,10 @@ pub fn status_code(s: InputStatus) -> u8 {
 }
 
 /// code of one player's contribution: the value, plus 300 if the player is flagged Disconnected
-pub fn chain(hash: u64, inputs: &[(u8, u8)]) -> u64 {
+pub fn chain(hash: u64, inputs: &[(u64, u8)]) -> u64 {
     let mut sum: u64 = 0;
     for (i, (v, st)) in inputs.iter().enumerate() {
-        let code = *v as u64 + if *st == 2 { 300 } else { 0 };
+        let code = *v + if *st == 2 { 300 } else { 0 };
         sum += (i as u64 + 1) * (code + 1) * 13;
     }
     (hash * HASH_MUL + sum) % HASH_MOD
@@ -100,8 +100,8 @@ impl Game {
                     }
                 },
                 GgrsRequest::AdvanceFrame { inputs } => {
-                    let ins: Vec<(u8, u8)> =
-                        inputs.iter().map(|(v, s)| (*v, status_code(*s))).collect();
+                    let ins: Vec<(u64, u8)> =
+                        inputs.iter().map(|(v, s)| (T::dec(*v), status_code(*s))).collect();
                     out.push(json!([
                         "A",
                         ins.iter().map(|(v, s)| json!([v, s])).collect::<Vec<_>>()
